@@ -110,5 +110,6 @@ CHECK = store.StoreCheck(
     rule="universe U8: authors A,B; regular a1(t10) a2(t20) a3(t40) b1(t10); kind-5 deletions by A and B at t30 (and t20) referencing own "
          "older, own newer, foreign, unknown, several, upper-case, p/E-tag only, malformed (zz, short, bare, empty) ids; "
          "oracle: removed subset of {referenced and same author}, superset of own older referenced; then REQ ids and get_event do not serve them",
+    linear={"quick": 2, "thorough": 3},
 )
 CHECK.export(globals())
